@@ -19,7 +19,7 @@ M = [
   "\tg.If(j.Id(\"!v.Null\")).BlockFunc(func(g *j.Group) {\n\t\tif !f.IsNullable {\n\t\t\t// obj.Float = float32(v.Value)", "unknown scalars are read from their payload"),
  ("m05b", ["C05", "C07"], "gen_copy_from.go", "\tfor _, m := range oneOfNames {\n\t\tg.Add(j.Id(\"obj.\" + m).Op(\"=\").Nil())\n\t}\n", "\t_ = oneOfNames\n", "oneof holders are not reset before reading"),
  ("m06a", ["C06"], "gen_copy_from.go", "\t\tj.Id(\"attrReadMissingDiag\").Values(j.Lit(f.Path)),", "\t\tj.Id(\"attrReadMissingDiag\").Values(j.Lit(f.Name)),", "missing-attribute diagnostics carry the Go field name instead of the path"),
- ("m06b", ["C06"], "gen_copy_to.go", "\t\tj.If(j.Id(\"!ok\")).BlockFunc(f.errAttrMissingDiag).Else().BlockFunc(g),\n\t)\n}\n\n// getAttr", "\t\tj.If(j.Id(\"ok\")).BlockFunc(g),\n\t)\n}\n\n// getAttr", "CopyTo silently skips attributes whose type is missing from the target"),
+ ("m06b", ["C06"], "gen_copy_to.go", "\t\tj.If(j.Id(\"!ok\")).BlockFunc(f.errAttrMissingDiag).Else().BlockFunc(func(gr *j.Group) {", "\t\tj.If(j.Id(\"ok\")).BlockFunc(func(gr *j.Group) {", "CopyTo silently skips attributes whose type is missing from the target"),
  ("m07a", ["C07"], "gen_copy_from.go", "\t\t\t// Do not set empty oneOf value to not override values possibly set by other branches\n\t\t\tg.If(j.Id(\"!v.Null && !v.Unknown\")).BlockFunc(func(g *j.Group) {",
   "\t\t\t// Do not set empty oneOf value to not override values possibly set by other branches\n\t\t\tg.If(j.Id(\"!v.Unknown\")).BlockFunc(func(g *j.Group) {", "a null scalar branch replaces the branch set before it"),
  ("m08a", ["C08"], "gen_copy_to.go", "\t\t}\n\t}\n\n\tg.Id(\"v.Unknown\").Op(\"=\").False()\n}\n\nfunc (f *FieldCopyToGenerator) genAssignValue", "\t\t}\n\t}\n}\n\nfunc (f *FieldCopyToGenerator) genAssignValue", "scalar attributes keep Unknown when copied back into a plan"),
